@@ -2125,6 +2125,15 @@ class Mailbox:
             for msg_key in to_delete:
                 self.sequences[seq].discard(msg_key)
         self.num_recent = len(self.sequences["Recent"])
+
+        # Keep the .mh_sequences up to date. Otherwise the removed message
+        # keys stay listed in it and a message delivered later that gets one
+        # of those keys would inherit the flags of the expunged message.
+        #
+        if to_delete:
+            async with self.mh_sequences_lock, self.mailbox.lock_folder():
+                self.set_sequences_in_folder(self.sequences)
+
         await self.commit_to_db()
         self.optional_resync = False
 
